@@ -1,0 +1,18 @@
+//go:build verif
+
+// Package verifhook holds the observation points of the verification
+// harness. They are compiled in only with the build tag "verif" and do
+// nothing unless a tracer is installed.
+package verifhook
+
+// Tracer, when set (before any goroutine is started), receives one event per
+// linearization point: op is the operation, key what it acted on. It is
+// called while the lock protecting the state is still held.
+var Tracer func(op, key string)
+
+// Lin reports a linearization point.
+func Lin(op, key string) {
+	if t := Tracer; t != nil {
+		t(op, key)
+	}
+}
